@@ -26,8 +26,9 @@
     banner by every responder (`ssh_chain`; same for the Gh0st reply, `ghost_chain`): that chain never
     ends.  Over UDP this needs no handshake: the identification is transport-agnostic.
 
-  The dispatcher facts (C10 not available) are proved here from the generated table:
-  Proofs/C12/Matcher (`searchNext_sound`, `searchNextEnd_sound`).
+  The dispatcher facts are corollaries of the generic, annotation-driven matcher equivalence of C10
+  (no fact of the concrete compiled table is written down): Proofs/C12/Matcher (`searchNext_sound`,
+  `searchNextEnd_sound`).
 
   Note on imports: Thm/C05 (and Proofs/Delivery) cannot be imported together with the modules that
   depend on Proofs/Bytes (Thm/C07, C14–C17): duplicate top-level declarations.  The ARP / ICMP
@@ -418,11 +419,11 @@ theorem rpc_tcp_reply_ssh_endless (h : Hop) (hs : List Hop) (hl : ∀ x ∈ h ::
   have hh : h.looks := hl h (by simp)
   have hr : ∀ x ∈ hs, x.looks := fun x hx => hl x (by simp [hx])
   have b1 : bounce h rpcSsh = .ok (some sshBanner) :=
-    bounce_of_search (id := 3) (st := 173) (n := 7) hh (by decide) (okIs_eq (by decide +kernel)) (fun tcb => by
+    bounce_of_search (id := 3) (st := stateAfter rpcSsh) (n := 7) hh (by decide) (okIs_eq (by decide +kernel)) (fun tcb => by
       have : sshRepl rpcSsh = .ok (some sshBanner) := okIs_eq (by decide +kernel)
       exact ⟨tcb, by simp [protoHandle, PROTO_HTTP, PROTO_STUN, PROTO_SSH, this]⟩)
   have b2 : bounce h rpcGhost = .ok (some Gen.ghostReply) :=
-    bounce_of_search (id := 4) (st := 171) (n := 5) hh (by decide) (okIs_eq (by decide +kernel)) (fun tcb =>
+    bounce_of_search (id := 4) (st := stateAfter rpcGhost) (n := 5) hh (by decide) (okIs_eq (by decide +kernel)) (fun tcb =>
       ⟨tcb, protoHandle_ghost _ _ _ _ _⟩)
   refine ⟨by decide +kernel, by decide +kernel, by decide +kernel, by decide +kernel, ?_, ?_⟩
   · have := ssh_chain hs hr
